@@ -349,7 +349,7 @@ class C14Trees(Machine):
                     "share": rng.randrange(8) if rng.chance(0.6) else None}
         if k == "add_children":
             return {"op": "add_children", "parent": rng.randrange(64), "n": rng.randint(1, 3),
-                    "single": rng.chance(0.3)}
+                    "single": rng.chance(0.3), "as_tuple": rng.chance(0.3)}
         if k == "bad_add":
             return {"op": "bad_add", "n": rng.randint(1, 2)}
         return {"op": "query"}
@@ -384,7 +384,7 @@ class C14Trees(Machine):
         if name == "add_children":
             parent = self.parts[op["parent"] % len(self.parts)]
             kids = [self._new_particle() for _ in range(1 if op["single"] else op["n"])]
-            arg = kids[0] if op["single"] else kids
+            arg = kids[0] if op["single"] else (tuple(kids) if op.get("as_tuple") else kids)
             st, _ = self.sut(self.event.add_children, parent, arg, where="add_children")
             for k in kids:
                 self.parts.append(k)
